@@ -141,7 +141,7 @@ fn invalid_args(ident_name: &IdentName, call: &CallExpr) -> bool {
         if args_array.expr.is_array() {
             let array = args_array.expr.as_array().unwrap();
             return this.expr.is_lit()
-                && array.elems.iter().skip(1).all(|elem| {
+                && array.elems.iter().all(|elem| {
                     if elem.is_none() {
                         return false;
                     }
